@@ -134,4 +134,53 @@ def wideCmp (dl : Nat) (nl : IntTy) (dr : Nat) (nr : IntTy) (op : CmpOp) (l r : 
     else .ok (cmpOp f op (encode f l) (fromBuiltin f t r))
   | .multi f, .multi g => cmpMixed f g op (encode f l) (encode g r)
 
+/-! ## a built-in integer on one side of a multi-limb `wide_integer` (`wide_tag/custom_operator.h`, `overloads.h`)
+
+`int ⊗ wide_integer<D, N>`: the wrapper operators turn the built-in operand into a `wide_integer<digits(T), …>`
+whose representation is the built-in value itself; the `custom_operator` for two `wide_tag`s then calls
+`Operator{}(lhs, rhs)` on the two *representations* — `uintwide_t`'s `IntegralType` overloads, which construct a
+`uintwide_t` of the wide operand's type from the built-in value (`fromBuiltin`) and use the member operator — and
+`static_cast`s the result to the representation of the result tag: `max(LhsDigits, RhsDigits)` digits, narrowest type
+of the width of `N`, signed if either operand is.  That conversion (`convTo`) is the identity unless a signed built-in
+operand meets an unsigned `wide_integer`: then the unsigned `f.N`-bit result is reinterpreted (same limb count) or
+zero-extended (the sign bit needs one more limb) in the signed result type.
+One operator takes another route: `wide % T` for an unsigned `T` no wider than a limb (`modSmall`). -/
+
+/-- narrowest type of the result tag -/
+def mixNarrowest (nw t : IntTy) : IntTy := { bits := nw.bits, signed := nw.signed || t.signed }
+
+/-- `uintwide_t % UnsignedIntegralType` for a type no wider than a limb — a separate overload that returns a
+**limb**: `|u| mod v` by `eval_divide_by_single_limb` (undefined for `v = 0`: the double-limb division by zero is
+executed), and for negative `u` the limb `~rem + 1`, i.e. `2^w − rem` instead of `−rem`; the caller converts that
+unsigned limb value to the result type -/
+def modSmall (f g : Fmt) (v : Nat) (a : Limbs) : Res Limbs :=
+  if v = 0 then .ub .divByZero
+  else
+    let neg := isNeg f a
+    let rem := (divShort f.w v 0 (if neg then negate f.w a else a)).2
+    let limb := if neg then lo f.w (2^f.w - 1 - rem + 1) else rem
+    .ok (fromUnsigned g f.w limb)
+
+/-- overload resolution picks the limb-returning `operator%`: `wide % T`, `T` unsigned and no wider than a limb -/
+def takesModSmall (f : Fmt) (t : IntTy) (op : BinOp) (builtinLeft : Bool) : Bool :=
+  !builtinLeft && !t.signed && decide (t.bits ≤ f.w) && decide (op = .mod)
+
+/-- `T ⊗ wide` (`builtinLeft`) or `wide ⊗ T`; `f` = format of the wide operand, `g` = format of the result type -/
+def mixArith (f g : Fmt) (t : IntTy) (op : BinOp) (builtinLeft : Bool) (v : Int) (a : Limbs) : Res Limbs :=
+  let b := fromBuiltin f t v
+  if takesModSmall f t op builtinLeft then
+    modSmall f g v.toNat a
+  else
+    (if builtinLeft then binOp f op b a else binOp f op a b).map (convTo f g)
+
+/-- the `wide_integer` a built-in operand of type `t` is wrapped as, next to a `wide_integer<_, nw>`:
+`wide_integer<digits(t), set_width_t<t, width(nw)>>` (single-word representation) -/
+def mixOperandDigits (t : IntTy) : Nat := t.digits
+def mixOperandNarrowest (nw t : IntTy) : IntTy := { bits := nw.bits, signed := t.signed }
+
+/-- comparison `T op wide` / `wide op T`: the comparison of two `wide_integer`s of different types (`wideCmp`) -/
+def mixCmp (d : Nat) (nw t : IntTy) (op : CmpOp) (builtinLeft : Bool) (v x : Int) : Res Bool :=
+  if builtinLeft then wideCmp (mixOperandDigits t) (mixOperandNarrowest nw t) d nw op v x
+  else wideCmp d nw (mixOperandDigits t) (mixOperandNarrowest nw t) op x v
+
 end Cnl.Wide
